@@ -57,49 +57,99 @@ Lemma refuted_type_variable_lem :
   exists w s t, unsound_witness w s t.
 Proof. exists w_tv, (TApp 2 [U77]), (TApp 1 [T20]). refute_with. Qed.
 
-(* ---------- B1 as stated is false: a declared supertype may be a bare type variable ---------- *)
-(* class 1 = C<T : Number> : T;  C<Any> <: Number *)
+(* ---------- the projection-free statements need the last three conjuncts of table_ok ---------- *)
+(* table_ok without supers_not_var, no_bottom_supers, boxed_table *)
+Definition table_ok_weak (w : world) : bool :=
+  nodup_nat (map fst (w_ct w)) &&
+  nodup_nat (map fst (w_bt w)) &&
+  forallb (fun cd => class_ok w (fst cd) (snd cd)) (w_ct w) &&
+  forallb (fun bb => builtin_ok w (fst bb) (snd bb)) (w_bt w).
+
+(* a bare type variable as declared supertype: class 1 = C<T : Number> : T;  C<Any> <: Number
+   is answered True (direct_supers substitutes parameterized supertypes only and
+   TypeParameter.is_subtype compares the bound) *)
 Definition TNum := TVar 10 Inv (Some tNumber).
 Definition w_sv : world :=
   {| w_ct := [(1, {| c_params := [TNum]; c_supers := [TNum] |})]; w_bt := bt3; w_array := None |}.
 
-Lemma is_subtype_sound_pf_refuted_lem :
+Lemma sound_pf_refuted_var_super_lem :
   exists w fuel p s t,
-    table_ok w = true /\ plain_closed s = true /\ plain_closed t = true /\
-    arity_ok w s = true /\ arity_ok w t = true /\ is_subtype w fuel s t = Rt /\ ~ SubA w p s t.
+    table_ok_weak w = true /\ no_bottom_supers w = true /\ boxed_table w = true /\
+    plain_closed s = true /\ plain_closed t = true /\
+    arity_ok w s = true /\ arity_ok w t = true /\ boxed s = true /\ boxed t = true /\
+    is_subtype w fuel s t = Rt /\ ~ SubA w p s t.
 Proof.
   exists w_sv, 40, [], (TApp 1 [tAny]), tNumber.
   repeat split; try (vm_compute; reflexivity).
   apply (sub_ref_no_sound_lem _ 40); vm_compute; reflexivity.
 Qed.
 
-(* ---------- B2 as stated is false ---------- *)
-(* (a) a bottom built-in declared as a supertype of another built-in *)
+(* a bottom built-in declared as a supertype of another built-in *)
 Definition w_bot : world :=
   {| w_ct := []; w_bt := [(1, mkb [] true); (2, mkb [1] false); (3, mkb [] false)]; w_array := None |}.
 
-Lemma is_subtype_complete_pf_refuted_lem :
+Lemma complete_pf_refuted_bottom_super_lem :
   exists w fuel p s t,
-    table_ok w = true /\ plain_closed s = true /\ plain_closed t = true /\
-    arity_ok w s = true /\ arity_ok w t = true /\ is_subtype w fuel s t = Rf /\ SubA w p s t.
+    table_ok_weak w = true /\ supers_not_var w = true /\ boxed_table w = true /\
+    plain_closed s = true /\ plain_closed t = true /\
+    arity_ok w s = true /\ arity_ok w t = true /\ boxed s = true /\ boxed t = true /\
+    is_subtype w fuel s t = Rf /\ SubA w p s t.
 Proof.
   exists w_bot, 40, [], (TBuiltin 2 false), (TBuiltin 3 false).
   repeat split; try (vm_compute; reflexivity).
   apply (sub_ref_yes_sound_lem _ 40); vm_compute; reflexivity.
 Qed.
 
-(* (b) primitive and boxed variants of one built-in are == for get_supertypes' set, but only
+(* primitive and boxed variants of one built-in are == for get_supertypes' set, but only
    the boxed one has supertypes: class 1 : int, Int;  class 1 <: Number is answered False *)
 Definition w_prim : world :=
   {| w_ct := [(1, {| c_params := []; c_supers := [TBuiltin 3 true; TBuiltin 3 false] |})];
      w_bt := bt3; w_array := None |}.
 
-Lemma is_subtype_complete_pf_refuted_prim_lem :
+Lemma complete_pf_refuted_prim_super_lem :
   exists w fuel p s t,
-    table_ok w = true /\ plain_closed s = true /\ plain_closed t = true /\
-    arity_ok w s = true /\ arity_ok w t = true /\ is_subtype w fuel s t = Rf /\ SubA w p s t.
+    table_ok_weak w = true /\ supers_not_var w = true /\ no_bottom_supers w = true /\
+    plain_closed s = true /\ plain_closed t = true /\
+    arity_ok w s = true /\ arity_ok w t = true /\ boxed s = true /\ boxed t = true /\
+    is_subtype w fuel s t = Rf /\ SubA w p s t.
 Proof.
   exists w_prim, 40, [], (TClass 1), tNumber.
   repeat split; try (vm_compute; reflexivity).
   apply (sub_ref_yes_sound_lem _ 40); vm_compute; reflexivity.
+Qed.
+
+(* the full table_ok is not enough for B2 either when s mentions a primitive:
+   class 1 = A<out T>, class 2 = C<T, U> : A<T>, A<U>;  C<int, Int> <: A<Number> is answered False *)
+Definition Tout := TVar 10 Cov None.
+Definition U11 := TVar 11 Inv None.
+Definition w_pa : world :=
+  {| w_ct := [(1, {| c_params := [Tout]; c_supers := [] |});
+              (2, {| c_params := [T10; U11]; c_supers := [TApp 1 [T10]; TApp 1 [U11]] |})];
+     w_bt := bt3; w_array := None |}.
+
+Lemma complete_pf_refuted_prim_arg_lem :
+  exists w fuel p s t,
+    table_ok w = true /\ plain_closed s = true /\ plain_closed t = true /\
+    arity_ok w s = true /\ arity_ok w t = true /\
+    is_subtype w fuel s t = Rf /\ SubA w p s t.
+Proof.
+  exists w_pa, 40, [], (TApp 2 [TBuiltin 3 true; tInt]), (TApp 1 [tNumber]).
+  repeat split; try (vm_compute; reflexivity).
+  apply (sub_ref_yes_sound_lem _ 40); vm_compute; reflexivity.
+Qed.
+
+(* transitivity of SubA fails across a primitive: int <: Int <: Number but not int <: Number *)
+Definition w_b3 : world := {| w_ct := []; w_bt := bt3; w_array := None |}.
+
+Lemma suba_trans_pf_refuted_lem :
+  exists w p a b c,
+    table_ok w = true /\ plain_closed a = true /\ plain_closed b = true /\ plain_closed c = true /\
+    arity_ok w a = true /\ arity_ok w b = true /\ arity_ok w c = true /\
+    SubA w p a b /\ SubA w p b c /\ ~ SubA w p a c.
+Proof.
+  exists w_b3, [], (TBuiltin 3 true), tInt, tNumber.
+  repeat split; try (vm_compute; reflexivity).
+  - apply (sub_ref_yes_sound_lem _ 40); vm_compute; reflexivity.
+  - apply (sub_ref_yes_sound_lem _ 40); vm_compute; reflexivity.
+  - apply (sub_ref_no_sound_lem _ 40); vm_compute; reflexivity.
 Qed.
